@@ -18,6 +18,12 @@ def run(ctx):
     rule_T4(ctx, repo, eng)
     rule_T5(ctx, repo)
     rule_W1(ctx, repo, eng)
+    rule_T6(ctx, repo)
+    # a cached identifier is an identifier of the object's *current* fields only if those fields cannot change:
+    # the deep-immutability obligations of C09 are obligations of this property as well
+    base, imm, mut = c09.classes(repo)
+    c09.rule_R5(ctx, repo, eng, imm, mut, rid='C02.F1')
+    c09.rule_R6(ctx, repo, eng, imm, mut, rid='C02.F2')
     c04.common_hash_rule(ctx, repo, 'C02.H1')
     ctx.not_decided += ['collision-freeness of SHA-256 ("differs exactly when" is decided up to the witness guard of C01.L3)']
     ctx.assume('hashlib.sha256 is SHA-256')
@@ -239,6 +245,31 @@ def rule_T5(ctx, repo):
     rets = [n for n in walk_no_nested(eq.node) if isinstance(n, ast.Return)]
     vals = [norm(n.value) for n in rets]
     other = eq.params[1]
+    # the type guard, decided as a truth table over its two atoms: NotImplemented exactly when neither operand is an
+    # instance of the other's class (so a mutable object and its immutable twin do compare by value)
+    A = 'isinstance(%s, self.__class__)' % other
+    B = 'isinstance(self, %s.__class__)' % other
+    rows = {}
+    undec = None
+    for a in (True, False):
+        for b in (True, False):
+            tr = Tracer(repo, eq.module, cls=ser, atom=lambda e, p, a=a, b=b: {A: a, B: b}.get(norm(e)))
+            ps = [p for p in tr.trace(eq.node.body, {})]
+            if len(ps) != 1 or ps[0].end != 'return':
+                undec = 'the path through __eq__ for %s=%s, %s=%s is not decided by the two isinstance tests (%d paths: %s)' % (
+                    A, a, B, b, len(ps), sorted({k for p in ps for k in p.assume}))
+                break
+            rows[(a, b)] = norm(ps[0].endnode.value) == 'NotImplemented'
+        if undec:
+            break
+    if undec:
+        r.undecided('Serializable.__eq__:type-guard', eq.site, undec)
+    else:
+        want = {(True, True): False, (True, False): False, (False, True): False, (False, False): True}
+        bad = [k for k in want if rows[k] != want[k]]
+        r.check(not bad, 'Serializable.__eq__:type-guard', eq.site, 'NotImplemented exactly when neither operand is an instance of the other class',
+                'Serializable.__eq__ %s for (other is-a self.__class__, self is-a other.__class__) = %s: a mutable object and its immutable twin no longer compare by value'
+                % ('gives up' if bad and rows[bad[0]] else 'compares', bad))
     ok = set(vals) <= {'NotImplemented', 'self.serialize() == %s.serialize()' % other, '%s.serialize() == self.serialize()' % other} \
         and any('serialize' in v for v in vals)
     r.check(ok, 'Serializable.__eq__', eq.site, 'compares serialisations', 'Serializable.__eq__ returns %s' % vals)
@@ -264,12 +295,59 @@ def rule_T5(ctx, repo):
                 r.violated('%s.%s:override' % (c.name, nm), c.methods[nm].site, '%s overrides %s: equality no longer follows the serialised form' % (c.name, nm))
 
 
+def rule_T6(ctx, repo):
+    """cache-slot discipline: a caching method reads and fills one slot of its own, with the value it returns"""
+    r = ctx.rule('C02.T6', 'every identifier cache slot is read, filled and returned by methods of one name only, with the value computed for that name', engine='OWN', floor=3)
+    users = {}  # slot -> {method name: [FunctionInfo]}
+    for fi in repo.iter_functions():
+        if fi.cls is None:
+            continue
+        rd, wr = c09.cache_use(fi)
+        for slot in rd | wr:
+            users.setdefault(slot, {}).setdefault(fi.name, []).append(fi)
+        if not (rd or wr):
+            continue
+        key = '%s.%s' % (fi.cls.name, fi.name)
+        if rd != wr or len(rd) != 1:
+            r.violated(key + ':one-slot', fi.site, '%s reads cache slot(s) %s but fills %s: the value served later is not the one computed here' % (fi.qualname, sorted(rd), sorted(wr)))
+            continue
+        slot = list(rd)[0]
+        # what is stored, and what is returned after storing
+        stored = returned = None
+        for n in walk_no_nested(fi.node):
+            if isinstance(n, ast.Call) and norm(n.func) == 'object.__setattr__' and len(n.args) == 3 and isinstance(n.args[1], ast.Constant) and n.args[1].value == slot:
+                stored = n.args[2]
+        rets = [n.value for n in walk_no_nested(fi.node) if isinstance(n, ast.Return) and n.value is not None]
+        # resolve local names
+        defs = {}
+        for n in walk_no_nested(fi.node):
+            if isinstance(n, ast.Assign) and len(n.targets) == 1 and isinstance(n.targets[0], ast.Name):
+                defs.setdefault(n.targets[0].id, []).append(n.value)
+
+        def res(e):
+            seen = 0
+            while isinstance(e, ast.Name) and len(defs.get(e.id, [])) == 1 and seen < 5:
+                e = defs[e.id][0]
+                seen += 1
+            return norm(e)
+        if stored is None:
+            r.undecided(key + ':stored', fi.site, 'no object.__setattr__(self, %r, ...) found' % slot)
+            continue
+        rt = {res(x) for x in rets} - {'self.' + slot}
+        r.check(rt == {res(stored)}, key + ':stored-is-returned', common.site_of(fi, stored), 'stores and returns `%s`' % res(stored),
+                '%s stores `%s` in %s but returns %s' % (fi.qualname, res(stored), slot, sorted(rt)))
+    for slot, by in sorted(users.items()):
+        r.check(len(by) == 1, 'slot:%s' % slot, sorted(f.site for fs in by.values() for f in fs)[0], 'used by %s only' % list(by)[0],
+                'cache slot %s is shared by methods of different names (%s): one serves the value another computed' % (
+                    slot, ', '.join('%s in %s' % (m, '/'.join(f.cls.name for f in fs)) for m, fs in sorted(by.items()))))
+
+
 def rule_W1(ctx, repo, eng):
     r = ctx.rule('C02.W1', 'the witness-empty test used by serialisation and has_witness is "every stack has length 0"', engine='LAYOUT', floor=1)
     c01.witness_null_chain(repo, eng, r, 'witness')
     tx = repo.get_class('bitcoin.core.CTransaction')
     hw = repo.lookup_method(tx, 'has_witness')
     if hw is not None:
-        b = _body(hw)
-        ok = len(b) == 1 and isinstance(b[0], ast.Return) and norm(b[0].value) == 'not self.wit.is_null()'
-        r.check(ok, 'has_witness', hw.site, 'not self.wit.is_null()', 'has_witness is `%s`' % (norm(b[-1]) if b else '?'))
+        e = common.return_expr(hw)
+        ok = e is not None and norm(e) == 'not self.wit.is_null()'
+        r.check(ok, 'has_witness', hw.site, 'not self.wit.is_null()', 'has_witness is `%s`' % (norm(e) if e is not None else norm(_body(hw)[-1])))
